@@ -368,6 +368,12 @@ func LCApplyViolations(before, after LCStoreSnap, participants int) []string {
 	if curChanged && !(before.NextKnown && after.Cur == before.Next) {
 		bad = append(bad, "current committee rotated to something other than the previously stored next committee")
 	}
+	// "rotates the current committee only to the previously stored next committee": a stored next committee that is
+	// replaced (or dropped) while the current one stays can never be rotated to - the rotation that follows installs
+	// whatever overwrote it. (A conforming client only fills a MISSING next committee between rotations.)
+	if !curChanged && before.NextKnown && (!after.NextKnown || after.Next != before.Next) {
+		bad = append(bad, "the stored next committee was replaced without a rotation (the coming rotation cannot go to the previously stored next committee)")
+	}
 	return bad
 }
 
